@@ -31,13 +31,30 @@ def bounded_task():
                bound=f"{c06.count_cases()} generated three-module projects", cases=c06.count_cases(), seconds=time.time() - t0, backend="enumeration")
         if hit:
             r.replay, r.witness = hit, hit["input"]
-        return [r]
+        kc = c06.known_case()
+        k = OR(id=f"{PROP}.Bd.pipeline.two_local_names_for_one_entity", status=REFUTED if kc else PROVED, kind="Bd", role="bounded", target="ford.sourceform.FortranModule.get_used_entities (parse half)",
+               desc="use a, only: p => t, q => t : both local names denote a's t", bound="1 case", cases=1, backend="enumeration", known="C06-two-local-names")
+        if kc:
+            k.replay, k.witness = kc, kc["input"]
+        return [r, k]
     return Task(f"{PROP}.Bd.pipeline", PROP, "real pipeline", run)
+
+
+def _get_deps():
+    from bounded import c06
+    from contracts import deps
+    c = deps.get_deps(PROP)
+    c.search_fn = c06.search
+    return c
+
+
+_get_deps.__name__ = "get_deps"
 
 
 def build(tier, seed):
     set_tier(tier)
     tasks = [a_task(PROP, _mk(k)) for k in KINDS]
+    tasks.append(a_task(PROP, _get_deps))
     tasks.append(Task(f"{PROP}.B.use_patterns", PROP, "USE_RE/ONLY_RE/RENAME_RE", lambda: rx_use.obligations(PROP)))
     tasks.append(bounded_task())
     meta = {
@@ -50,10 +67,12 @@ def build(tier, seed):
             "name if renamed and otherwise under its own name (and not under the remote name when renamed)",
         ],
         "functions_under_contract": fn_meta([("ford.sourceform", "FortranModule.get_used_entities.used_objects",
-                                              "closure verified as a function of its free variables (self, used_names); one instance per export table")]) +
+                                              "closure verified as a function of its free variables (self, used_names); one instance per export table"),
+                                             ("ford.fortran_project", "Project.correlate.get_deps", "nested function; the recursive call is the callee whose contract is this function's own postcondition")]) +
         [{"constant": "FortranContainer.USE_RE"}, {"constant": "FortranModule.ONLY_RE"}, {"constant": "FortranModule.RENAME_RE"}],
         "unverified_surroundings": ["FortranModule._cleanup (export tables)", "re-export block of FortranCodeUnit.correlate (filter_public)",
-                                    "module ordering (toposort) in Project.correlate", "find_used_modules"],
-        "explanation": "Decide half of get_used_entities proved for every export table, clause and rename map; USE patterns cover every USE form.",
+                                    "module ordering: toposort_flatten over the dependency lists (library contract); that filter_modules keeps exactly the FortranModule objects", "find_used_modules"],
+        "explanation": "Decide half of get_used_entities proved for every export table, clause and rename map; USE patterns cover every USE form; the dependency "
+                       "list that orders the correlation of modules holds the uses of a unit and of everything nested in it at any depth (get_deps against its recursive specification).",
     }
     return tasks, meta
